@@ -85,10 +85,12 @@ UNIT = Unit(
            ensures=[("C14-wf", "style_wf(r)")]),
         Fn("src/style.rs", "ProgressStyle", "tick_chars", ret="r",
            rewrites=[Rw("R5", r"s\.chars\(\)\.map\(\|c\| c\.to_string\(\)\.into\(\)\)\.collect\(\)", "chars_to_strings(s)"), ASSERT_TICKS],
-           requires=[("wf", "style_wf(self)")], ensures=[("C14-wf", "style_wf(r)")]),
+           requires=[("wf", "style_wf(self)")], ensures=[("C14-wf", "style_wf(r)"),
+                     ("C11-C14-ticks-are-the-given-characters", "r.tick_strings@.len() == s@.len() && forall|i: int| 0 <= i < s@.len() ==> (#[trigger] r.tick_strings@[i])@ == seq![s@[i]]")]),
         Fn("src/style.rs", "ProgressStyle", "tick_strings", ret="r",
            rewrites=[Rw("R5", r"s\.iter\(\)\.map\(\|s\| s\.to_string\(\)\.into\(\)\)\.collect\(\)", "strs_to_strings(s)"), ASSERT_TICKS],
-           requires=[("wf", "style_wf(self)")], ensures=[("C14-wf", "style_wf(r)")]),
+           requires=[("wf", "style_wf(self)")], ensures=[("C14-wf", "style_wf(r)"),
+                     ("C11-C14-ticks-are-the-given-strings", "r.tick_strings@.len() == s@.len() && forall|i: int| 0 <= i < s@.len() ==> (#[trigger] r.tick_strings@[i])@ == s@[i]@")]),
         Fn("src/style.rs", "ProgressStyle", "progress_chars", ret="r",
            rewrites=[ASSERT_TICKS],
            requires=[("wf", "style_wf(self)")], ensures=[("C14-wf", "style_wf(r)", ["C14", "C13"])]),
@@ -99,10 +101,11 @@ UNIT = Unit(
         Fn("src/style.rs", "ProgressStyle", "get_tick_str", ret="r",
            sig_rewrites=[Rw("R15", r"-> &str", "-> &String")],
            requires=[("wf", "style_wf(*self)")],
-           ensures=[("C14-tick-index", "exists|i: int| 0 <= i < self.tick_strings@.len() - 1 && *r == self.tick_strings@[i]")]),
+           ensures=[("C14-tick-index", "exists|i: int| 0 <= i < self.tick_strings@.len() - 1 && *r == self.tick_strings@[i]"),
+                    ("C11-running-frame", "*r == self.tick_strings@[(idx as usize as int) % (self.tick_strings@.len() - 1)]")]),
         Fn("src/style.rs", "ProgressStyle", "get_final_tick_str", ret="r",
            sig_rewrites=[Rw("R15", r"-> &str", "-> &String")],
            requires=[("wf", "style_wf(*self)")],
-           ensures=[("C14-final-tick", "*r == self.tick_strings@[self.tick_strings@.len() - 1]")]),
+           ensures=[("C14-final-tick", "*r == self.tick_strings@[self.tick_strings@.len() - 1]", ["C14", "C11"])]),
     ],
 )
